@@ -1,5 +1,17 @@
-"""Per-property configuration of ./check, loaded from propcfg.d/<Cxx>.json (one file per claimed property):
-runs (harness run name, optional model run name, case budgets per tier), level text, trusted base."""
+"""Per-property configuration of ./check, loaded from propcfg.d/<Cxx>.json plus optional fragments
+propcfg.d/<Cxx>.<part>.json (runs / trusted_base / assumptions lists are concatenated).
+Keys: runs [{name, drv, model?, cases{quick,thorough}, args?, timeout?}], level_text, level_note, technique?,
+trusted_base [], assumptions []."""
 import glob, json, os
 _D = os.path.join(os.path.dirname(os.path.abspath(__file__)), "propcfg.d")
-PROPS = {os.path.basename(p)[:-5]: json.load(open(p)) for p in sorted(glob.glob(os.path.join(_D, "C*.json")))}
+PROPS = {}
+for p in sorted(glob.glob(os.path.join(_D, "C*.json"))):
+    pid = os.path.basename(p).split(".")[0]
+    j = json.load(open(p))
+    c = PROPS.setdefault(pid, {})
+    for k, v in j.items():
+        if isinstance(v, list):
+            c.setdefault(k, [])
+            c[k] = c[k] + v
+        elif k not in c or os.path.basename(p) == pid + ".json":
+            c[k] = v
